@@ -84,6 +84,15 @@ pub fn families(m: usize, n: usize, seed: u64) -> Vec<(&'static str, Vec<u8>, Ve
     dense[l7 / 2] = b'!';
     h7.extend(rep(&dense, n - n / 2));
     out.push(("free prefix then dense false candidates", nd7, h7));
+    // large period with a self-overlapping right part: a^(m-k-1) c a^k, after a long candidate-free prefix that keeps the
+    // adaptive prefilter switched on, then a region where every position is a (false) candidate
+    let k = (m / 8).max(1).min(m - 1);
+    let mut nd8 = vec![b'a'; m];
+    nd8[m - k - 1] = b'c';
+    let mut h8 = vec![b'z'; n / 2];
+    h8.extend(vec![b'a'; n - n / 2]);
+    out.push(("a^j c a^k in z^(n/2) a^(n/2)", nd8.clone(), h8));
+    out.push(("a^j c a^k in a^n", nd8, vec![b'a'; n]));
     // needle occurs everywhere (find_iter yields n/m matches)
     out.push(("a^m in a^n", vec![b'a'; m], vec![b'a'; n]));
     // seeded random over a 2-letter alphabet, needle cut from the haystack
@@ -111,7 +120,8 @@ pub fn record(out_path: &str, max_hay_log2: u32, seed: u64, force: &str) -> u64 
     memchr::verif::set_force(force);
     let mut f = std::io::BufWriter::new(std::fs::File::create(out_path).unwrap());
     let mut nrec = 0u64;
-    let needle_sizes = [2usize, 3, 8, 17, 31, 32, 33, 64, 200, 256, 1024, 4096];
+    // sizes on both sides of the routing thresholds (32/33) and of the 8-bit boundaries (255/256/257, 2^k + small)
+    let needle_sizes = [2usize, 3, 8, 17, 31, 32, 33, 64, 200, 255, 256, 257, 272, 288, 289, 520, 1024, 1040, 4096];
     let mut hay_sizes = Vec::new();
     let mut e = 8;
     while e <= max_hay_log2 {
